@@ -37,9 +37,19 @@ def run(chk):
         for n in walk_no_nested(m.node):
             if isinstance(n, ast.With) and any(is_self_attr(it.context_expr, lock) for it in n.items):
                 lock_holders.add(m.name)
+    # private helpers that other pool methods call are analysed in their callers' context (inlined): a helper that
+    # documents "the lock must be held" is only ever entered with the lock held if all its call sites hold it
+    called_helpers = set()
+    for m in methods:
+        for n in walk_no_nested(m.node):
+            if isinstance(n, ast.Call) and isinstance(n.func, ast.Attribute) and is_self_attr(n.func) and n.func.attr.startswith("_") and not n.func.attr.startswith("__") and n.func.attr in pool.methods and n.func.attr != m.name:
+                called_helpers.add(n.func.attr)
     for m in methods:
         touches = [n for n in walk_no_nested(m.node) if is_self_attr(n) and n.attr in fields]
-        if not touches and m.name not in lock_holders:
+        if not touches and m.name not in lock_holders and not any(isinstance(n, ast.Call) and isinstance(n.func, ast.Attribute) and is_self_attr(n.func) and n.func.attr in called_helpers for n in walk_no_nested(m.node)):
+            continue
+        if m.name in called_helpers:
+            r1.note("ObjectPool.%s is a private helper analysed through its callers" % m.name)
             continue
         variants = [None]
         if m.param("silent") is not None:
